@@ -43,13 +43,13 @@ def random_history(rng, maxlen, names, ops_kinds):
             h = rng.choice(roots)
             ri = pt.handles[h][0]
             k = rng.choice(ops_kinds)
-            bf = rng.choice(BF_CHOICES)
+            bf = rng.choice(BF_CHOICES + [None, None, None])      # None: the call is made without any option
             if k in ("M", "V", "m", "v"):
                 # interference only: mkdir / verify calls (their own results depend on the jail's state and are not compared)
                 doc = spell(pt.items(ri), plain_spelling(pt.items(ri)))
                 ex = rng.choice(["-", "-", "2e676f", "2e676f+2e6d64+2e676f", "2e6d64+61"])     # the same option values recur within a process
                 ops.append({"M": "M,%d,%s,%s,%s,-,-,-,-" % (h, rng.choice("01"), ex, hx(b"tgt")),
-                            "V": "V,%d,%s,%s" % (h, rng.choice("01"), hx(b"tgt")),
+                            "V": rng.choice(["V,%d,%s,%s" % (h, rng.choice("01"), hx(b"tgt")), "V,%d,0,-" % h]),     # the second: no option at all
                             "m": "m,%s,%s,%s,-,-,-,-,%s" % (rng.choice("01"), ex, hx(b"tgt"), hx(doc)),
                             "v": "v,%s,%s,%s" % (rng.choice("01"), hx(b"tgt"), hx(doc))}[k])
                 continue
